@@ -397,8 +397,9 @@ func buildUpdatedFields(input *TaskInput) []string {
 func applySetUpdates(dir string, opts GlobalOptions, id string, updates map[string]string, agentID string, quiet bool) error {
 	lockPath := filepath.Join(dir, "lock")
 	eventsPath := getEventsPath(dir)
+	repoDir := filepath.Dir(dir)
 
-	// Handle result.path + result.summary (requires file I/O before lock)
+	// result.path + result.summary must come together
 	resultPath, hasPath := updates["result.path"]
 	resultSummary, hasSummary := updates["result.summary"]
 	if hasPath || hasSummary {
@@ -408,20 +409,11 @@ func applySetUpdates(dir string, opts GlobalOptions, id string, updates map[stri
 		if !hasSummary {
 			return errors.New("result.path requires result.summary=")
 		}
-		if err := writeResultEvent(dir, opts, id, resultSummary, resultPath); err != nil {
-			return err
-		}
 		delete(updates, "result.path")
 		delete(updates, "result.summary")
-		// If no other updates, we're done
-		if len(updates) == 0 {
-			if !quiet {
-				fmt.Println(id)
-			}
-			return nil
-		}
 	}
 
+	// One lock section for the whole command: a refused field leaves nothing behind.
 	return withLock(lockPath, syscall.LOCK_EX, func() error {
 		graph, err := loadGraph(dir)
 		if err != nil {
@@ -436,45 +428,10 @@ func applySetUpdates(dir string, opts GlobalOptions, id string, updates map[stri
 			return fmt.Errorf("unknown task id %s", id)
 		}
 
-		// Epics cannot have state or claim
-		if isEpic(task) {
-			if _, hasState := updates["state"]; hasState {
-				return errors.New("epics do not have state")
-			}
-			if _, hasClaim := updates["claim"]; hasClaim {
-				return errors.New("epics cannot be claimed")
-			}
-		}
-
-		// An epic assignment must name a live epic ("" unassigns).
-		if epicID, ok := updates["epic"]; ok && epicID != "" && !isEpic(task) {
-			if _, pruned := graph.Tombstones[epicID]; pruned {
-				return prunedErr(epicID)
-			}
-			epic, ok := graph.Tasks[epicID]
-			if !ok {
-				return fmt.Errorf("unknown epic id %s", epicID)
-			}
-			if !epic.IsEpic {
-				return fmt.Errorf("task %s is not an epic", epicID)
-			}
-		}
-
 		now := time.Now().UTC()
-
-		// Build events using pure function, passing I/O-dependent body resolver
-		events, remainingUpdates, err := buildSetEvents(id, task, updates, agentID, now, identityBodyResolver)
+		events, err := buildUpdateEvents(graph, repoDir, task, updates, hasPath, resultSummary, resultPath, agentID, now)
 		if err != nil {
 			return err
-		}
-
-		// Check for any unhandled keys
-		if len(remainingUpdates) > 0 {
-			var unknown []string
-			for key := range remainingUpdates {
-				unknown = append(unknown, key)
-			}
-			return fmt.Errorf("unknown keys: %s", strings.Join(unknown, ", "))
 		}
 
 		if err := appendEvents(eventsPath, events); err != nil {
@@ -485,6 +442,63 @@ func applySetUpdates(dir string, opts GlobalOptions, id string, updates map[stri
 		}
 		return nil
 	})
+}
+
+// buildUpdateEvents validates a result attachment and/or field updates for task against
+// graph and returns the events that record them, in log order. Nothing is written.
+func buildUpdateEvents(graph *Graph, repoDir string, task *Task, updates map[string]string, withResult bool, resultSummary, resultPath, agentID string, now time.Time) ([]Event, error) {
+	var events []Event
+	if withResult {
+		event, err := buildResultEvent(repoDir, task, resultSummary, resultPath, now)
+		if err != nil {
+			return nil, err
+		}
+		events = append(events, event)
+	}
+	if len(updates) == 0 {
+		return events, nil
+	}
+
+	// Epics cannot have state or claim
+	if isEpic(task) {
+		if _, hasState := updates["state"]; hasState {
+			return nil, errors.New("epics do not have state")
+		}
+		if _, hasClaim := updates["claim"]; hasClaim {
+			return nil, errors.New("epics cannot be claimed")
+		}
+	}
+
+	// An epic assignment must name a live epic ("" unassigns).
+	if epicID, ok := updates["epic"]; ok && epicID != "" && !isEpic(task) {
+		if _, pruned := graph.Tombstones[epicID]; pruned {
+			return nil, prunedErr(epicID)
+		}
+		epic, ok := graph.Tasks[epicID]
+		if !ok {
+			return nil, fmt.Errorf("unknown epic id %s", epicID)
+		}
+		if !epic.IsEpic {
+			return nil, fmt.Errorf("task %s is not an epic", epicID)
+		}
+	}
+
+	// Build events using pure function, passing I/O-dependent body resolver
+	setEvents, remainingUpdates, err := buildSetEvents(task.ID, task, updates, agentID, now, identityBodyResolver)
+	if err != nil {
+		return nil, err
+	}
+
+	// Check for any unhandled keys
+	if len(remainingUpdates) > 0 {
+		var unknown []string
+		for key := range remainingUpdates {
+			unknown = append(unknown, key)
+		}
+		return nil, fmt.Errorf("unknown keys: %s", strings.Join(unknown, ", "))
+	}
+
+	return append(events, setEvents...), nil
 }
 
 // buildSetEvents generates the event list for a set command.
